@@ -65,8 +65,21 @@ def c12_scripts(seed, n):
         k = r.rng(2, 4)
         hists = []
         for j in range(k):
-            kind = r.below(3)
-            if kind == 0:
+            kind = r.below(4)
+            if kind == 3:
+                # cursor movement along rows and columns under varying capability flags
+                w, h = r.rng(2, 9), r.rng(2, 5)
+                ls = ["T 0 new %d" % (r.below(128) | (r.below(32) << 7)), "T 0 size %d %d" % (w, h)]
+                y = r.below(h)
+                for _ in range(r.rng(2, 8)):
+                    c = r.below(4)
+                    if c == 0:
+                        y = r.below(h)
+                    x = 0 if r.chance(1, 3) else r.below(w)
+                    ls.append("T 0 move %d %d" % (x, y))
+                    if r.chance(1, 3):
+                        ls.append("T 0 elem " + gen.el(gen.wf_glyph(r), gen.wf_attr(r)))
+            elif kind == 0:
                 ls = gen.gen_term_case(r, 0, wild=r.chance(1, 4))[1:-1]
             elif kind == 1 and r.chance(1, 2):
                 ls = ["T 0 new 0", "T 0 arm"] + ["T 0 recv " + gen.hexs(gen.wild_bytes(r, r.rng(0, 6))) for _ in range(r.rng(1, 6))]
@@ -152,6 +165,35 @@ def run_c12(pid, tier, seed, ctx, P):
                 fails.append(("object %s%s of group %s behaves differently when its operations are interleaved with those of other objects: step %d: interleaved %s / alone %s" % (
                     kind, oid, case, k, blocks[k] if k < len(blocks) else None, (want or [None])[k] if want and k < len(want) else None), icases.get(case, [])))
                 break
+        # the same solo cases in the opposite order, in a fresh process: what an object
+        # does must not depend on which other objects were used before it
+        scases, sorder = vc.split_cases(solo)
+        orders = [list(reversed(sorder))]
+        pr = gen.Rng(gen.family_seed(sd, "orders"))
+        for _ in range(8 if escalate or tier != "quick" else 1):
+            o = list(sorder)
+            for i in range(len(o) - 1, 0, -1):
+                j = pr.below(i + 1)
+                o[i], o[j] = o[j], o[i]
+            orders.append(o)
+        for oi, order in enumerate(orders):
+          if any(not w.startswith("TIE:") for (w, _l) in fails):
+            break
+          rev = []
+          for c in order:
+            rev += scases[c]
+          rr = vc.run_script(ctx, "multi-solo-order%d-%d" % (oi, sd), rev, want_oracle=False, want_model=False)
+          br = blocks_by_object(rr["impl_lines"])
+          for key, blocks in bs.items():
+            if br.get(key) != blocks:
+                  other = br.get(key) or []
+                  k = next((i for i in range(max(len(blocks), len(other))) if i >= len(blocks) or i >= len(other) or blocks[i] != other[i]), 0)
+                  case = key[0]
+                  before_fwd = [l for c in order[:order.index(case)] for l in scases[c]][-60:]
+                  fails.append(("object %s%s of case %s behaves differently depending on which objects were used earlier in the process: step %d: after cases %s.. [%s] / after the later cases [%s]" % (
+                      key[1], key[2], case, k, sorder[0], blocks[k] if k < len(blocks) else None, other[k] if k < len(other) else None),
+                      before_fwd + scases[case]))
+                  break
         # the same solo cases, each on its own thread, all concurrently
         for kind in (["asan"] if tier == "quick" and not escalate else ["asan", "tsan"]):
             if fails:
@@ -205,15 +247,38 @@ def run_c14(pid, tier, seed, ctx, P):
             chunks = [bytes(r.below(256) for _ in range(r.below(40))) for _ in range(2000 if tier == "quick" else 10000)]
         else:
             chunks = [bytes(r.below(256) for _ in range(r.pick([0, 1, 2, 7, 100, 1000]))) for _ in range(r.rng(1, 50))]
-        inp = "".join((c.hex() if c else "-") + "\n" for c in chunks).encode()
+        # what the host program does around the terminal (formatting state left on
+        # std::cout, its own output, how the process ends) must not change what arrives
+        script = [(c.hex() if c else "-") for c in chunks]
+        want_parts = list(chunks)
+        host = i % 4
+        if host in (1, 2, 3) and shape in (2, 5, 4):
+            script, want_parts = [], []
+            if host == 1:
+                script += ["!width %d" % r.pick([2, 8, 40]), "!fill %d" % r.pick([42, 48, 32]), r.pick(["!hex", "!left", "!hex"])]
+            for c in chunks[:200]:
+                script.append(c.hex() if c else "-")
+                want_parts.append(c)
+                if host == 1 and r.chance(1, 5):
+                    script.append("!width %d" % r.pick([1, 3, 16]))
+                if host == 2 and r.chance(1, 4):
+                    hb = bytes(r.below(256) for _ in range(r.pick([1, 2, 30, 300])))
+                    script.append("!host " + hb.hex())
+                    want_parts.append(hb)
+                if host == 2 and r.chance(1, 10):
+                    script.append("!flush")
+            if host == 3:
+                script.append("!exit")       # std::exit(0) with the channel still alive
+        inp = "".join(l + "\n" for l in script).encode()
         rc, out, err = run_child(exe, "stdout", inp)
         stats["write_scripts"] += 1
-        want = b"".join(chunks)
+        want = b"".join(want_parts)
+        chunks = [c for c in want_parts]
         stats["bytes"] += len(want)
         if rc != 0 or out != want:
             k = next((j for j in range(min(len(out), len(want))) if out[j] != want[j]), min(len(out), len(want)))
             fails.append(("stdout_channel: %d writes totalling %d bytes produced %d bytes on standard output (exit %d); first difference at offset %d" % (
-                len(chunks), len(want), len(out), rc, k), ["X stdout " + " ".join((c.hex() if c else "-") for c in chunks[:20])]))
+                len(chunks), len(want), len(out), rc, k), ["X stdout " + " ".join(script[:40])]))
             break
     # the same terminal operations through stdout_channel and through a capturing channel
     nops = 60 if tier == "quick" else 600
